@@ -3,6 +3,7 @@
     godec <schemas-id> <pkg> <object> <json-sexp>   →  ok <json> | err | unsup <why> | fuel
 -/
 import Cog.Sem.GoCodec
+import Cog.Sem.Den
 import Cog.Drv.SchemaStore
 namespace Cog.Drv
 open Cog Cog.IR Cog.Sem
@@ -32,6 +33,25 @@ def godecLine (rest : String) : IO String := do
       match (Sexp.parse (" ".intercalate js)).bind Json.ofSexp with
       | none => return "bad-json"
       | some j => return showDRes (goRoundTripAuto ss pkg obj j)
+  | _ => return "bad-request"
+
+/-- `goden <schemas-id> <pkg> <object> <json-sexp>` → true|false: is the document in the
+    document language `den` (the hypothesis of C01's round-trip theorem) at the fuel where the
+    decoder model answers? -/
+partial def denAuto (ss : Schemas) (pkg name : String) (j : Json) (f : Nat := 4) : Bool :=
+  match goRoundTrip f ss pkg name j with
+  | .fuel => if f ≥ semFuel then false else denAuto ss pkg name j (f + 2)
+  | _ => den (f + 8) ss (.ref pkg name {}) j || den f ss (.ref pkg name {}) j
+
+def godenLine (rest : String) : IO String := do
+  match rest.splitOn " " with
+  | id :: pkg :: obj :: js =>
+    match ← getSchemas id with
+    | none => return "unknown-schemas"
+    | some ss =>
+      match (Sexp.parse (" ".intercalate js)).bind Json.ofSexp with
+      | none => return "bad-json"
+      | some j => return toString (denAuto ss pkg obj j)
   | _ => return "bad-request"
 
 end Cog.Drv
